@@ -73,8 +73,28 @@ func concPolicy(args []string, out *bufio.Writer) {
 			writers = 1 + r.intn(3)
 			rounds = 2 + r.intn(3)
 		}
+		// in a third of the ordinary scripts InvalidateAll runs again and again while the writers write: whatever the write buffer
+		// accepted meanwhile must still reach the policy
+		sweeper := !big && !stall && i%3 == 1
 		for round := 0; round < rounds; round++ {
 			var wg sync.WaitGroup
+			stopSweeper := make(chan struct{})
+			sweeperDone := make(chan struct{})
+			go func() {
+				defer close(sweeperDone)
+				if !sweeper {
+					return
+				}
+				for {
+					select {
+					case <-stopSweeper:
+						return
+					default:
+					}
+					c.InvalidateAll()
+					time.Sleep(30 * time.Microsecond)
+				}
+			}()
 			for w := 0; w < writers; w++ {
 				wg.Add(1)
 				ws := r.next()
@@ -116,6 +136,8 @@ func concPolicy(args []string, out *bufio.Writer) {
 				}(w)
 			}
 			wg.Wait()
+			close(stopSweeper)
+			<-sweeperDone
 			// the maximum changes at run time: lowered, raised far above the current size, set back — with reads recorded just
 			// before (they must still reach the policy: nothing may be left in the read buffer at the audit)
 			if !big && !stall && r.chance(0.35) {
